@@ -237,7 +237,8 @@ def generate(seed, tier='quick'):
                     spec = {'hang': True}
                     per[r] = 'temp'
                 else:
-                    rc = rng.choice([1, 75, 75, 2, 100, 255])
+                    # (negative: the delivery program died from a signal)
+                    rc = rng.choice([1, 75, 75, 2, 100, 255, -9, -11])
                     txt = rng.choice(['', '5.1.1 user unknown',
                                       '4.2.2 mailbox full', 'some error',
                                       'maildrop: quota exceeded',
